@@ -120,6 +120,9 @@ def ev(e, ctx):
         return ctx.inp_get(e[1], e[2])
     if op == 'has':                     # ref in v
         return ctx.line_has(e[1])
+    if op == 'thr':                     # s.threshold(name[, key]) - key is an enum-typed expression
+        key = ev(e[2], ctx) if len(e) > 2 and e[2] is not None else None
+        return ctx.threshold(e[1], key)
     if op == 'add':
         return num(ev(e[1], ctx)) + num(ev(e[2], ctx))
     if op == 'sub':
@@ -185,11 +188,11 @@ def cast(x, line):
 
 
 WRONG_KINDS = {
-    'float': ['int', 'bool', 'str', 'myfloat', 'int0', 'boolF', 'myfloat0'],
+    'float': ['int', 'bool', 'str', 'myfloat', 'int0', 'boolF', 'myfloat0', 'tuple', 'list', 'enummember'],
     'int': ['bool', 'float', 'myint', 'str', 'boolF', 'float0', 'myint0'],
     'bool': ['int', 'str', 'int0', 'float0'],
     'str': ['int', 'float', 'bytes', 'int0', 'bytes0'],
-    'enum': ['otherenum', 'membername', 'int', 'int0', 'boolF', 'twinenum'],
+    'enum': ['otherenum', 'membername', 'int', 'int0', 'boolF', 'twinenum', 'memberdesc'],
 }
 
 
@@ -234,6 +237,14 @@ def raw_python_value(raw, line, ctx):
         return ctx.enum_member_name(line.get('enum'))
     if w == 'twinenum':
         return ctx.twin_enum_member(line.get('enum'))
+    if w == 'memberdesc':
+        return list(ctx.enums[line.get('enum')])[0].value       # the description text of a choice
+    if w == 'tuple':
+        return ('other income', 12.5)
+    if w == 'list':
+        return [1.0, 2.0]
+    if w == 'enummember':
+        return ctx.other_enum_member(None)
     raise core.HarnessError(w)
 
 
@@ -263,6 +274,11 @@ class RealCtx(object):
 
     def notimpl(self):
         self.s.not_implemented()
+
+    def threshold(self, name, key):
+        if key is None:
+            return self.s.threshold(name)
+        return self.s.threshold(name, key)
 
     def enum_member(self, ename, member):
         return self.enums[ename][member]
@@ -338,6 +354,22 @@ def _make_field(line, enums):
     raise core.HarnessError(t)
 
 
+def _make_thresholds(fs, enums):
+    """world spec: {'name': number} or {'name': {'enum': E, 'table': [[[members...], value], ...]}} -> habutax thresholds"""
+    out = {}
+    for name, t in (fs.get('thresholds') or {}).items():
+        if isinstance(t, dict):
+            en = enums[t['enum']]
+            tab = {}
+            for members, value in t['table']:
+                key = en[members[0]] if len(members) == 1 else tuple(en[m] for m in members)
+                tab[key] = value
+            out[name] = tab
+        else:
+            out[name] = t
+    return out
+
+
 def _make_pdf_field(m):
     k = m['kind']
     if k == 'text':
@@ -379,8 +411,8 @@ def _build_class(fs, enums):
             req = [_make_field(l, enums) for l in fs['required']]
             opt = [_make_field(l, enums) for l in fs['optional']]
             pdf = [_make_pdf_field(m) for m in fs.get('pdf', [])]
-            hb_form.Form.__init__(self, type(self), ins, req, opt, pdf_fields=pdf,
-                                  pdf_file=(TEMPLATE if fs.get('pdf') else None), **kwargs)
+            hb_form.Form.__init__(self, type(self), ins, req, opt, thresholds=_make_thresholds(fs, enums),
+                                  pdf_fields=pdf, pdf_file=(TEMPLATE if fs.get('pdf') else None), **kwargs)
 
         files = fs.get('files', 'always')
 
